@@ -1,4 +1,5 @@
 import PvlModel.Lemmas.Num
+import PvlModel.Lemmas.Based
 import PvlModel.Model.Spec
 /-!
 # C03 — well-formed text decodes to the values the dialect grammar assigns
@@ -10,7 +11,9 @@ five decoders, i.e. it is not claimed by an earlier step of the decoder cascade 
 based integer) and `int()` as modelled from CPython returns the value.  `NumSafe` is the only fact about
 the grammar tables that the proof uses; it is evaluated on the tables regenerated from /repo.
 
-The rest of C03 (reals, based integers, dates, strings, aggregates, layout) is decided by comparing the
+`C03_binary_literal`: `2#bits#` denotes the binary value of its digits under the PVL decoder.
+
+The rest of C03 (reals, other based integers, dates — see C14 —, strings, aggregates, layout) is decided by comparing the
 real loader, the generator's own reading of each literal, the parser model and the Lean specification
 `Spec.specLoad` on every generated text (`vlib/props/c03.py`).
 -/
@@ -32,6 +35,18 @@ theorem C03_int_literal (d : Dec) (hg : d.g = Gen.pvl ∨ d.g = Gen.odl ∨ d.g 
     leading zeros allowed (`007` is 7) -/
 theorem C03_digits_value (s : Str) (hs : s ≠ []) (hd : AllDigits s) :
     int10 s = some (digitsVal s 0 : Int) := int10_digits s hs hd
+
+/-- **C03, binary integers**: `2#b₁…bₖ#` under the PVL decoder (PVL and ISIS grammar tables) denotes the
+    positional value of its digits, for every non-empty digit string -/
+theorem C03_binary_literal (g : Grammar) (hg : g = Gen.pvl ∨ g = Gen.isis) (bits : Str) (hb : AllBits bits)
+    (hne : bits ≠ []) :
+    decodeSimple ⟨g, .pvl⟩ (50 :: 35 :: (bits ++ [35])) = .ok (.int (binVal bits 0)) := by
+  obtain ⟨h1, _, _, h4, _⟩ := numSafe_tables
+  rcases hg with rfl | rfl
+  · exact decodeSimple_bin _ h1 (by decide) bits hb hne
+  · exact decodeSimple_bin _ h4 (by decide) bits hb hne
+
+example : binVal [49, 48, 49, 49] 0 = 11 := by decide
 
 example : decodeSimple ⟨Gen.odl, .odl⟩ (intStr (-42)) = .ok (.int (-42)) := C03_int_literal _ (by simp) _
 
